@@ -82,7 +82,7 @@ pub fn make_binst(r: &mut StdRng, variant: usize) -> BInst {
         keys.insert(k.to_string(), k.to_string());
     }
     // custom keys: plain, unicode, with escapes, long
-    let customs: [(&str, &str); 14] = [
+    let customs: [(&str, &str); 18] = [
         (" lead", "trail "),
         ("\tboth\n", "\u{a0}nbsp"),
         ("id", "id\n"),
@@ -97,6 +97,12 @@ pub fn make_binst(r: &mut StdRng, variant: usize) -> BInst {
         ("exp ", " iat"),
         ("nbf\n", "\texp"),
         ("iss ", " sub"),
+        // characters JSON must escape as \uXXXX or may leave alone, but that other escaping schemes treat
+        // differently: NUL, DEL, a combining mark, zero-width space, BOM, a private-use code point
+        ("nul\0", "del\u{7f}"),
+        ("e\u{301}", "\u{200b}zw"),
+        ("\u{feff}bom", "\u{e000}pua"),
+        ("\u{1}\u{1f}", "\u{85}\u{2028}"),
     ];
     let (ca, cb) = if variant % 7 >= 4 { customs[0] } else { customs[variant % customs.len()] };
     keys.insert("ca".into(), if variant % 11 == 10 && variant % 7 < 4 { "x".repeat(1024) } else { ca.to_string() });
